@@ -75,6 +75,22 @@ fn main() {
             };
             std::process::exit(code);
         }
+        Some("determinism") => {
+            let n: u64 = args.get(2).and_then(|s| s.parse().ok()).unwrap_or(2000);
+            let mut ok = true;
+            for p in ["C01", "C04", "C06", "C07", "C08", "C09", "C10", "C11", "C12", "C16"] {
+                ok &= check::determinism::<repl_engine::Repl>(p, n);
+            }
+            ok &= check::determinism::<fam_c06::C06Enum>("C06", 200);
+            ok &= check::determinism::<fam_c12::C12c>("C12", n * 5);
+            ok &= check::determinism::<fam_c13::C13>("C13", n);
+            ok &= check::determinism::<fam_c14::C14>("C14", n);
+            ok &= check::determinism::<fam_c17::C17>("C17", n);
+            if !ok {
+                eprintln!("harness error: determinism self-check failed");
+                std::process::exit(2);
+            }
+        }
         Some("c14hash") => {
             println!("{}", fam_c14::hash_of(&fam_c14::CANON));
         }
